@@ -42,7 +42,11 @@ ASSUMPTIONS = ["fragments and parts are ACGT (parts in either case; CutWithEnzym
                "survive the pruning of dead ends to the fixpoint — decoys of any shape: single, chained, sharing their dead end or their lead-in, "
                "palindromic, digest by-products — no junction overhang is self-complementary and the forward overhang determines the reverse overhang); for every pool the exact "
                "set returned is characterised by ligate_exact (rings closed at the first return to the seed's forward overhang)"]
-PARTIAL = ["the schedule theorems are about a hand-transcribed Step system; its structural pin (synchronisation vocabulary + four order "
+PARTIAL = ["a LOSSY send of a construct (a select with a default or a timer around `c <- construct`) cannot be exposed by the dynamic runs: it "
+           "needs a stalled collector or more than a buffer's worth (thousands) of pending constructs, and the harness cannot reach inside "
+           "CircularLigate; it is excluded by the HARD structural obligation clone_sends_unconditional (Props/C09.lean: no send on the "
+           "construct channel is a select communication; fact re-extracted from clone.go on every run)",
+           "the schedule theorems are about a hand-transcribed Step system; its structural pin (synchronisation vocabulary + four order "
            "facts, regenerated from clone.go; Props/C09Pin.lean clone_structure_pinned) is a soft obligation reported in the evidence; results "
            "under GOMAXPROCS 1/2/16 and -race are judged on every run",
            "ligate_complete ('none missing') is proved for SIMPLE rings (junction overhangs pairwise distinct and non-palindromic, every fragment "
@@ -94,7 +98,7 @@ LEVEL_NOTE = ("Trusted: Lean kernel; harness + driver; the Go runtime is represe
               "judge_oneLap_exact: the sets of ring LISTS are exactly the spec's rings / simple rings / one-lap rings); what is not proved "
               "about the judge is downstream of the rings: the linear-time canonical form keyFast (compared with the proved key on every "
               "returned construct of <= 200 letters), the ring-code deduplication (an optimisation: one representative per rotation/strand "
-              "class) and the sorting of key lists.")
+              "class) and the sorting of key lists. The circuit breaker is per pipeline run (main, each GOMAXPROCS run, each race run: hangs in one schedule run do not un-run the others), except that an open breaker of the MAIN run (three in-quantifier calls that did not return: a non-termination regression, reported with failing inputs) also stops the schedule runs — at GOMAXPROCS=1 a call that spawns goroutines without end starves the timers and could not be ended by any deadline.")
 HARNESS_BIN = "run-clone"
 EXTRACT_BINS = ["extract-clone"]
 SOFT_MODULES = ["PolyVerif.Props.C09Pin"]
